@@ -111,8 +111,8 @@ func min(a, b int) int {
 
 // honestShape draws the free shape parameters of an honest quote.
 func honestShape(r *mrand.Rand) world.QuoteShape {
-	auth := []int{0, 1, 32, 32, 32, 64, 1000, r.Intn(300)}
-	extra := []int{0, 0, 0, 1, 7, r.Intn(3000)}
+	auth := []int{0, 1, 31, 32, 32, 33, 63, 64, 65, 127, 128, 129, 255, 256, 257, 1000, 4096, r.Intn(300)}
+	extra := []int{0, 0, 0, 1, 7, 255, 256, r.Intn(3000)}
 	return world.QuoteShape{AuthLen: auth[r.Intn(len(auth))], ExtraLen: extra[r.Intn(len(extra))], TrailingNul: r.Intn(2) == 0}
 }
 
